@@ -44,7 +44,9 @@ Record callsite := mkCS {
   cs_file : string; cs_line : N; cs_struct : string;
   cs_fields : list string;          (* keyword names given *)
   cs_boolish : list string;         (* keywords whose value is syntactically a bool (constant, comparison, not, and/or) *)
-  cs_i32 : bool; cs_i32l : option (list N) }.
+  cs_i32 : bool; cs_i32l : option (list N);
+  cs_enumrefs : list (string * (string * string));   (* keyword given `parquet_thrift.<Enum>.<MEMBER>` *)
+  cs_intlits : list (string * Z) }.                  (* keyword given an integer literal *)
 
 (* the type nibble write_thrift selects for an int under this site's markers (Impl/CThrift.v int_nib) *)
 Definition site_nib (c : callsite) (id : N) : N :=
@@ -84,3 +86,44 @@ Definition site_ok (T : idl) (c : callsite) : bool :=
 
 Definition site_judged (T : idl) (c : callsite) : bool :=
   match find_struct (structs T) (cs_struct c) with Some sd => site_complete sd c | None => false end.
+
+(* ---- enum values ---------------------------------------------------------------------------------
+   enums_agree: the constants of parquet_thrift/parquet/ttypes.py (what `parquet_thrift.Type.INT32` evaluates to)
+   are exactly the IDL's enums (names and values), so a constant the code uses has the IDL's value;
+   site_enums_ok: an enum-typed field given such a constant gets a member of ITS declared enum, and an integer
+   literal given to an enum-typed field is one of the enum's values. *)
+Definition enums_agree (T : idl) (es : list edef) : bool :=
+  forallb (fun e => match find_enum (enums T) (e_name e) with Some d => edef_eqb e d | None => false end) es
+  && forallb (fun d => match find_enum es (e_name d) with Some _ => true | None => false end) (enums T).
+
+Definition enum_member (T : idl) (e m : string) : bool :=
+  match find_enum (enums T) e with
+  | Some d => existsb (fun p => String.eqb (fst p) m) (e_vals d)
+  | None => false
+  end.
+
+Definition enum_value (T : idl) (e : string) (z : Z) : bool :=
+  match find_enum (enums T) e with
+  | Some d => existsb (fun p => Z.eqb (snd p) z) (e_vals d)
+  | None => false
+  end.
+
+Definition elem_enum (t : fty) : option string :=
+  match t with FEnum e => Some e | FList (FEnum e) => Some e | _ => None end.
+
+Definition site_enums_ok (T : idl) (c : callsite) : bool :=
+  match find_struct (structs T) (cs_struct c) with
+  | None => false
+  | Some sd =>
+    forallb (fun r => match find_field_name (s_fields sd) (fst r) with
+                      | Some f => match elem_enum (f_ty f) with
+                                  | Some e => String.eqb e (fst (snd r)) && enum_member T e (snd (snd r))
+                                  | None => false
+                                  end
+                      | None => false
+                      end) (cs_enumrefs c)
+    && forallb (fun r => match find_field_name (s_fields sd) (fst r) with
+                         | Some f => match f_ty f with FEnum e => enum_value T e (snd r) | _ => true end
+                         | None => false
+                         end) (cs_intlits c)
+  end.
